@@ -20,7 +20,7 @@ CONSTANTS N,          \* (prime) group order
           MaxObjs,    \* pool bound
           Scalars     \* multipliers offered to Mul / MulAdd (may be negative or >= N)
 
-VARIABLES objs,       \* sequence of [val, kind]
+VARIABLES objs,       \* sequence of [val, kind, ord]; ord: the object is known to carry a declared order (conservative)
           last        \* [op, i, j, k, m, res]  (res: a value, or 0/1 for comparisons)
 vars == <<objs, last>>
 
@@ -33,7 +33,8 @@ Keys == {i \in Ix : Kind(i) = "K"}
 Room == Len(objs) < MaxObjs
 Mod(x) == x % N
 Rec(op, i, j, k, m, res) == [op |-> op, i |-> i, j |-> j, k |-> k, m |-> m, res |-> res]
-Push(v, kind) == objs' = Append(objs, [val |-> v, kind |-> kind])
+Push(v, kind, o) == objs' = Append(objs, [val |-> v, kind |-> kind, ord |-> o])
+Ord(i) == objs[i].ord
 Keep == objs' = objs
 
 Init == objs = <<>> /\ last = Rec("init", 0, 0, 0, 0, 0)
@@ -41,37 +42,40 @@ Init == objs = <<>> /\ last = Rec("init", 0, 0, 0, 0, 0)
 (* construct a point of value v: k = 0 / 1 built with Z = 1 / Z # 1 and a declared order,      *)
 (* k = 2 / 3 the same without a declared order (not possible for generator-flagged points)  *)
 New(v, kind, k) == /\ Room /\ (kind = "G" => k < 2) /\ (kind = "A" => k \in {0, 2})
-                   /\ Push(v, kind) /\ last' = Rec("new", 0, 0, k, 0, v)
+                   /\ Push(v, kind, k < 2) /\ last' = Rec("new", 0, 0, k, 0, v)
 (* reads and in-place representation changes: the result is the value, nothing changes *)
 Read(op, i) == /\ i \in Points /\ Val(i) # 0 /\ Keep /\ last' = Rec(op, i, 0, 0, 0, Val(i))
 (* results that are new objects *)
-ToAffine(i) == /\ i \in Jac /\ Val(i) # 0 /\ Room /\ Push(Val(i), "A") /\ last' = Rec("to_affine", i, 0, 0, 0, Val(i))
-FromAffine(i, g) == /\ i \in Points /\ Kind(i) = "A" /\ Room /\ Push(Val(i), IF g = 1 THEN "G" ELSE "J")
+ToAffine(i) == /\ i \in Jac /\ Val(i) # 0 /\ Room /\ Push(Val(i), "A", Ord(i)) /\ last' = Rec("to_affine", i, 0, 0, 0, Val(i))
+(* generator = True is documented to need a point with a declared order *)
+FromAffine(i, g) == /\ i \in Points /\ Kind(i) = "A" /\ Room /\ (g = 1 => Ord(i))
+                    /\ Push(Val(i), IF g = 1 THEN "G" ELSE "J", Ord(i))
                     /\ last' = Rec("from_affine", i, 0, g, 0, Val(i))
-Double(i) == /\ i \in Points /\ Val(i) # 0 /\ Room /\ Mod(2 * Val(i)) # 0 /\ Push(Mod(2 * Val(i)), IF Kind(i) = "A" THEN "A" ELSE "J")
+Double(i) == /\ i \in Points /\ Val(i) # 0 /\ Room /\ Mod(2 * Val(i)) # 0
+             /\ Push(Mod(2 * Val(i)), IF Kind(i) = "A" THEN "A" ELSE "J", Kind(i) # "A" /\ Ord(i))
              /\ last' = Rec("double", i, 0, 0, 0, Mod(2 * Val(i)))
-Neg(i) == /\ i \in Points /\ Val(i) # 0 /\ Room /\ Push(Mod(N - Val(i)), IF Kind(i) = "A" THEN "A" ELSE "J")
+Neg(i) == /\ i \in Points /\ Val(i) # 0 /\ Room /\ Push(Mod(N - Val(i)), IF Kind(i) = "A" THEN "A" ELSE "J", Kind(i) # "A" /\ Ord(i))
           /\ last' = Rec("neg", i, 0, 0, 0, Mod(N - Val(i)))
 Add(i, j) == /\ i \in Points /\ j \in Points /\ Val(i) # 0 /\ Val(j) # 0 /\ Room
              /\ LET r == Mod(Val(i) + Val(j)) IN
                   /\ r # 0        \* a sum at infinity is the INFINITY singleton, not a pool object
-                  /\ Push(r, IF Kind(i) = "A" /\ Kind(j) = "A" THEN "A" ELSE "J")
+                  /\ Push(r, IF Kind(i) = "A" /\ Kind(j) = "A" THEN "A" ELSE "J", FALSE)
                   /\ last' = Rec("add", i, j, 0, 0, r)
 AddInf(i, j) == /\ i \in Points /\ j \in Points /\ Val(i) # 0 /\ Mod(Val(i) + Val(j)) = 0
                 /\ Keep /\ last' = Rec("add", i, j, 0, 0, 0)
 Mul(i, k) == /\ i \in Points /\ Val(i) # 0 /\ Room
              /\ LET r == Mod(k * Val(i)) IN
-                  /\ IF r = 0 THEN Keep ELSE Push(r, IF Kind(i) = "A" THEN "A" ELSE "J")
+                  /\ IF r = 0 THEN Keep ELSE Push(r, IF Kind(i) = "A" THEN "A" ELSE "J", FALSE)
                   /\ last' = Rec("mul", i, 0, k, 0, r)
 MulAdd(i, k, j, m) == /\ i \in Jac /\ j \in Points /\ Val(i) # 0 /\ Val(j) # 0 /\ Room
                       /\ LET r == Mod(k * Val(i) + m * Val(j)) IN
-                           /\ IF r = 0 THEN Keep ELSE Push(r, "J")
+                           /\ IF r = 0 THEN Keep ELSE Push(r, "J", FALSE)
                            /\ last' = Rec("muladd", i, j, k, m, r)
 Eq(i, j) == /\ i \in Points /\ j \in Points /\ Keep
             /\ last' = Rec("eq", i, j, 0, 0, IF Val(i) = Val(j) THEN 1 ELSE 0)
-Pickle(i) == /\ i \in Ix /\ Room /\ Push(Val(i), Kind(i)) /\ last' = Rec("pickle", i, 0, 0, 0, Val(i))
+Pickle(i) == /\ i \in Ix /\ Room /\ Push(Val(i), Kind(i), Ord(i)) /\ last' = Rec("pickle", i, 0, 0, 0, Val(i))
 (* keys *)
-NewKey(i) == /\ i \in Points /\ Val(i) # 0 /\ Room /\ Push(Val(i), "K") /\ last' = Rec("newkey", i, 0, 0, 0, Val(i))
+NewKey(i) == /\ i \in Points /\ Val(i) # 0 /\ Room /\ Push(Val(i), "K", TRUE) /\ last' = Rec("newkey", i, 0, 0, 0, Val(i))
 Precompute(i, lazy) == /\ i \in Keys /\ Keep /\ last' = Rec("precompute", i, 0, lazy, 0, Val(i))
 (* verify a genuine signature of the key with value Val(i) (other = 0: res 1), or a signature  *)
 (* made by another key (other = 1): in a small group that one may happen to verify, so the    *)
